@@ -233,10 +233,17 @@ def gotoLoop (c : ECfg S) (recur : String → Live S.V → NRes S (Output S.V)) 
             else let f := mkFinal accC' accD' o; ({ l3 with out := some f }, .ok f)
           | none => let f := mkFinal accC' accD' o; ({ l3 with out := some f }, .ok f)
 
+/-- `except Exception: self.current_passage_id = position_before; raise` — a navigation that fails part-way leaves the
+position where it was -/
+def keepCurOnError {α} (l0 : Live S.V) (r : NRes S α) : NRes S α :=
+  match r with
+  | (l', .error e) => ({ l' with cur := l0.cur }, .error e)
+  | x => x
+
 /-- the `try` body of `goto`: the chain loop from the named passage with fresh accumulators -/
 def gotoBody (c : ECfg S) (recur : String → Live S.V → NRes S (Output S.V)) (pid : String)
     (l : Live S.V) : NRes S (Output S.V) :=
-  gotoLoop c recur (c.story.passages.length + 1) [] pid [] [] l
+  keepCurOnError l (gotoLoop c recur (c.story.passages.length + 1) [] pid [] [] l)
 
 /-- push the parameter scope, run the body, pop in `finally` (on success and on error alike) -/
 def withScope (scope : Env S.V) (body : Live S.V → NRes S (Output S.V)) (l : Live S.V) :
